@@ -15,4 +15,6 @@ def run(tier):
     selector.chain_rule(run, f, "C20-CHAIN")
     selector.scope_rule(run, f, "C20-SCOPE")
     selector.poll_lock_rule(run, f, "C20-POLL-LOCK")
+    # a wait is only woken by readiness if the descriptor really is registered: the interest machine of C21
+    selector.machine_rule(run, f, "C20-INTEREST-MACHINE")
     return run.finish()
